@@ -45,13 +45,29 @@ type Field struct {
 	Annos []Anno
 }
 
+// forms of a type-like declaration
+const (
+	tType  = 0 // !type / !table
+	tEnum  = 1 // !enum Name: items
+	tAlias = 2 // !alias Name: target (indented or on the header line)
+	tUnion = 3 // !union Name: members
+)
+
 type TypeD struct {
 	Table  bool
 	Name   string
 	Attrs  []Attr
 	Annos  []Anno
 	Fields []Field // may be empty: body is "..."
+	// round 3
+	Form    int
+	Members []string // tEnum: item names; tUnion: member types (empty: "...")
+	Target  string   // tAlias
+	Inline  bool     // tAlias: "!alias A: int" on one line
 }
+
+// Mixin is a "-|> App" line of an app body (records no location)
+type Mixin struct{ App string }
 
 const (
 	sText  = iota // free text action
@@ -63,6 +79,7 @@ const (
 	sLoop         // for / for each / loop / while / until / alt
 	sGroup        // label:
 	sOneOf        // one of: cases
+	sDoc          // "| text" lines (Lines >= 1): consecutive lines are ONE statement
 )
 
 type Stmt struct {
@@ -73,6 +90,7 @@ type Stmt struct {
 	Attrs []Attr // only on text and call statements
 	Body  []Stmt
 	Cases []Case
+	Lines []string // sDoc
 }
 
 type Case struct {
@@ -88,6 +106,7 @@ type EpD struct {
 	Annos    []Anno // annotations inside the body (before the statements)
 	Stmts    []Stmt
 	Shortcut bool // "Name: ..."
+	Params   []Field // "(p <: int, q <: T0 [~x])"
 }
 
 type Method struct {
@@ -96,6 +115,7 @@ type Method struct {
 	Attrs []Attr
 	Annos []Anno
 	Stmts []Stmt
+	Params []Field
 }
 
 type Rest struct {
@@ -112,7 +132,7 @@ type Block struct {
 	App   string
 	Long  string
 	Attrs []Attr
-	Items []interface{}
+	Items []interface{} // empty: the body is "..."
 }
 
 type FileD struct {
@@ -133,6 +153,7 @@ type gen struct {
 	uniq int
 	// re-declaration pools
 	hostile bool
+	noDoc   bool // no "| text" statements (REST methods: a leading doc string becomes the endpoint's docstring)
 }
 
 func (g *gen) id(prefix string) string { g.uniq++; return fmt.Sprintf("%s%d", prefix, g.uniq) }
@@ -275,6 +296,14 @@ func (g *gen) stmts(depth, max int, apps []string) []Stmt {
 			}
 			out = append(out, s)
 		case k < 5:
+			if !g.noDoc && g.r.Chance(1, 2) {
+				d := Stmt{Kind: sDoc}
+				for j := 1 + g.r.Intn(3); j > 0; j-- {
+					d.Lines = append(d.Lines, []string{"doc " + g.str(), "more", "see é", "x"}[g.r.Intn(4)])
+				}
+				out = append(out, d)
+				continue
+			}
 			out = append(out, Stmt{Kind: sQText, Text: g.str()})
 		case k < 7:
 			s := Stmt{Kind: sCall, Text: fmt.Sprintf("E%d", g.r.Intn(4))}
@@ -328,6 +357,7 @@ type appPlan struct {
 	typeAnno  map[string]*[]string
 	fieldAnno map[string]*[]string
 	epAnno    map[string]*[]string
+	likes     int
 }
 
 func (g *gen) typeShare(p *appPlan, redeclare bool) TypeD {
@@ -375,6 +405,64 @@ func (g *gen) typeShare(p *appPlan, redeclare bool) TypeD {
 	return t
 }
 
+// params: one to three parameters "name <: type [attributes]"
+func (g *gen) params(p *appPlan) []Field {
+	var out []Field
+	for i, n := 0, 1+g.r.Intn(3); i < n; i++ {
+		f := Field{Name: fmt.Sprintf("p%d", i), Type: prims[g.r.Intn(len(prims))]}
+		if g.r.Chance(1, 4) && len(p.types) > 0 {
+			f.Type = p.types[g.r.Intn(len(p.types))]
+		}
+		if g.r.Chance(1, 3) {
+			for _, a := range g.attrs(2) {
+				if a.Form == fDefault {
+					f.Attrs = append(f.Attrs, a)
+				}
+			}
+		}
+		out = append(out, f)
+	}
+	return out
+}
+
+// typeLike: an enum, alias or union under a name of its own (a second declaration of one name REPLACES the first: such
+// re-declarations are generated in the replacing stream only)
+func (g *gen) typeLike(p *appPlan) TypeD {
+	p.likes++
+	t := TypeD{Attrs: g.attrs(2)}
+	var pool []string
+	t.Annos = g.annos(&pool, 2)
+	if g.hostile && p.likes > 1 && g.r.Chance(1, 2) {
+		p.likes = 1 + g.r.Intn(p.likes-1) // declare an earlier name again
+	}
+	switch g.r.Intn(3) {
+	case 0:
+		t.Form, t.Name = tEnum, fmt.Sprintf("En%d", p.likes)
+		for i, n := 0, 1+g.r.Intn(3); i < n; i++ {
+			t.Members = append(t.Members, fmt.Sprintf("I%d", i))
+		}
+	case 1:
+		t.Form, t.Name = tAlias, fmt.Sprintf("Al%d", p.likes)
+		t.Target = []string{"int", "string", "sequence of int", "set of string", "date"}[g.r.Intn(5)]
+		if len(p.types) > 0 && g.r.Chance(1, 3) {
+			t.Target = p.types[g.r.Intn(len(p.types))]
+		}
+		if len(t.Annos) == 0 && g.r.Chance(1, 3) {
+			t.Inline = true
+		}
+	default:
+		t.Form, t.Name = tUnion, fmt.Sprintf("Un%d", p.likes)
+		ms := []string{"int", "string", "sequence of int", "bool", "set of string"}
+		if len(p.types) > 0 {
+			ms = append(ms, p.types[0])
+		}
+		for i, n := g.r.Intn(len(ms)), g.r.Intn(4); n > 0; n, i = n-1, i+1 {
+			t.Members = append(t.Members, ms[i%len(ms)])
+		}
+	}
+	return t
+}
+
 func (g *gen) epShare(p *appPlan, apps []string, event bool) EpD {
 	pool := &p.eps
 	prefix := "E"
@@ -405,6 +493,9 @@ func (g *gen) epShare(p *appPlan, apps []string, event bool) EpD {
 	}
 	if !event {
 		e.Annos = g.annos(p.epAnno[prefix+name], 2)
+	}
+	if (!event || !again) && g.r.Chance(1, 4) {
+		e.Params = g.params(p)
 	}
 	e.Stmts = g.stmts(2, 3, apps)
 	if again && !event && g.r.Chance(1, 3) {
@@ -449,13 +540,23 @@ func (g *gen) rest(p *appPlan, apps []string, depth int, prefix string) Rest {
 			continue
 		}
 		used[v] = true
+		g.noDoc = true
 		m := Method{Verb: v, Attrs: g.attrs(2), Stmts: g.stmts(1, 2, apps)}
+		g.noDoc = false
+		if g.r.Chance(1, 5) {
+			m.Params = g.params(p)
+		}
 		if g.r.Chance(1, 4) {
 			m.Query = "q" + fmt.Sprint(g.r.Intn(3)) + "=int"
 		}
-		var mp []string
-		if g.r.Chance(1, 5) {
-			m.Annos = g.annos(&mp, 1)
+		// annotations of a REST method come from a pool of its endpoint name: a method declared again (in another
+		// block or file) now and then declares one of its annotations again
+		mk := "M" + v + " " + prefix + r.Name
+		if p.epAnno[mk] == nil {
+			p.epAnno[mk] = &[]string{}
+		}
+		if g.r.Chance(1, 3) {
+			m.Annos = g.annos(p.epAnno[mk], 2)
 		}
 		r.Methods = append(r.Methods, m)
 	}
@@ -543,6 +644,7 @@ func (g *gen) spec(nApps, maxBlocks, nFiles, maxItems int) Spec {
 			f.ImpIdx[j], f.ImpIdx[k] = f.ImpIdx[k], f.ImpIdx[j]
 		}
 	}
+	needMx := false
 	for ai, p := range plans {
 		nb := 1 + g.r.Intn(maxBlocks)
 		for b := 0; b < nb; b++ {
@@ -553,7 +655,13 @@ func (g *gen) spec(nApps, maxBlocks, nFiles, maxItems int) Spec {
 			blk.Attrs = g.attrs(3)
 			ni := 1 + g.r.Intn(maxItems)
 			for k := 0; k < ni; k++ {
-				switch x := g.r.Intn(10); {
+				switch x := g.r.Intn(12); {
+				case x >= 11:
+					// the mixed-in application holds no types: its types would be copied into this one
+					blk.Items = append(blk.Items, Mixin{App: "Mx"})
+					needMx = true
+				case x >= 10:
+					blk.Items = append(blk.Items, g.typeLike(p))
 				case x < 3:
 					blk.Items = append(blk.Items, g.typeShare(p, false))
 				case x < 6:
@@ -577,6 +685,10 @@ func (g *gen) spec(nApps, maxBlocks, nFiles, maxItems int) Spec {
 			}
 			s.Files[fi].Blocks = append(s.Files[fi].Blocks, blk)
 		}
+	}
+	if needMx {
+		fi := g.r.Intn(nFiles)
+		s.Files[fi].Blocks = append(s.Files[fi].Blocks, Block{App: "Mx", Attrs: []Attr{{Kind: 1, Name: "abstract"}}, Items: []interface{}{EpD{Name: "E0", Shortcut: true}}})
 	}
 	// every file needs at least one block
 	for i := range s.Files {
@@ -604,4 +716,132 @@ func (g *gen) everywhere(s *Spec) {
 		bs = append(bs, blk)
 		s.Files[i].Blocks = append(bs, s.Files[i].Blocks[at:]...)
 	}
+}
+
+// ---- tiny files (round 3) ----
+
+// tinyBlock: a body-less, attribute-less application, or an application holding one shortcut endpoint
+func tinyBlock(app string, shape int) Block {
+	switch shape {
+	case 1:
+		return Block{App: app, Items: []interface{}{EpD{Name: "E0", Shortcut: true}}}
+	case 2:
+		return Block{App: app, Items: []interface{}{Anno{Name: "n1", Val: "v"}}}
+	}
+	return Block{App: app}
+}
+
+// tiny builds a specification of n very small files: the root imports (imports in the given order: a star) or the
+// files form a chain; every file holds one or two tiny applications. names: 0 = the SAME application in every file
+// (its n locations spell the order of the files), 1 = applications whose names have the same length (every file has the
+// same token shape: the first element of a file has the token indices, line and column of the last element of the
+// file parsed before it), 2 = mixed
+func tinySpec(n int, perm []int, chain bool, names int, shape func(i int) int, two bool) Spec {
+	s := Spec{}
+	for i := 0; i < n; i++ {
+		s.Files = append(s.Files, FileD{Name: fmt.Sprintf("f%d.sysl", i)})
+	}
+	imp := func(a, b int) {
+		s.Files[a].Imports = append(s.Files[a].Imports, fmt.Sprintf("f%d", b))
+		s.Files[a].ImpIdx = append(s.Files[a].ImpIdx, b)
+	}
+	if chain {
+		at := 0
+		for _, j := range perm {
+			imp(at, j)
+			at = j
+		}
+	} else {
+		for _, j := range perm {
+			imp(0, j)
+		}
+	}
+	pool := []string{"Legacy", "Modern", "Backup", "Ledger", "Portal"}
+	for i := range s.Files {
+		var app string
+		switch names {
+		case 0:
+			app = "Legacy"
+		case 1:
+			app = pool[i%len(pool)]
+		default:
+			app = []string{"Legacy", pool[i%len(pool)], "Ns :: Legacy"}[i%3]
+		}
+		s.Files[i].Blocks = append(s.Files[i].Blocks, tinyBlock(app, shape(i)))
+		if two {
+			s.Files[i].Blocks = append(s.Files[i].Blocks, tinyBlock(pool[(i+1)%len(pool)], 0))
+		}
+	}
+	return s
+}
+
+func permutations(xs []int) [][]int {
+	if len(xs) <= 1 {
+		return [][]int{append([]int{}, xs...)}
+	}
+	var out [][]int
+	for i := range xs {
+		rest := append(append([]int{}, xs[:i]...), xs[i+1:]...)
+		for _, p := range permutations(rest) {
+			out = append(out, append([]int{xs[i]}, p...))
+		}
+	}
+	return out
+}
+
+// tinySpecs: every import order of stars and chains of 2-4 files (5 in the thorough tier), with the three naming schemes
+func (g *gen) tinySpecs(maxFiles int) []Spec {
+	var out []Spec
+	for n := 2; n <= maxFiles; n++ {
+		var rest []int
+		for i := 1; i < n; i++ {
+			rest = append(rest, i)
+		}
+		for _, perm := range permutations(rest) {
+			for names := 0; names < 3; names++ {
+				for _, chain := range []bool{false, true} {
+					if chain && n == 2 {
+						continue
+					}
+					k := g.r.Intn(4)
+					out = append(out, tinySpec(n, perm, chain, names, func(i int) int {
+						if k == 0 {
+							return (i + 1) % 3 % 2 // some files hold a shortcut endpoint
+						}
+						return 0
+					}, k == 1))
+				}
+			}
+		}
+	}
+	return out
+}
+
+// tinyRandom: 2-5 tiny files in a random import graph with extra (cross / back) edges
+func (g *gen) tinyRandom() Spec {
+	n := 2 + g.r.Intn(4)
+	var perm []int
+	for i := 1; i < n; i++ {
+		perm = append(perm, i)
+	}
+	for j := len(perm) - 1; j > 0; j-- {
+		k := g.r.Intn(j + 1)
+		perm[j], perm[k] = perm[k], perm[j]
+	}
+	names := g.r.Intn(3)
+	s := tinySpec(n, perm, g.r.Bool(), names, func(int) int { return []int{0, 0, 0, 1, 2}[g.r.Intn(5)] }, g.r.Chance(1, 4))
+	for k := g.r.Intn(n); k > 0; k-- {
+		a, b := g.r.Intn(n), g.r.Intn(n)
+		dup := a == b
+		for _, x := range s.Files[a].ImpIdx {
+			if x == b {
+				dup = true
+			}
+		}
+		if !dup {
+			s.Files[a].Imports = append(s.Files[a].Imports, fmt.Sprintf("f%d", b))
+			s.Files[a].ImpIdx = append(s.Files[a].ImpIdx, b)
+		}
+	}
+	return s
 }
